@@ -1101,6 +1101,13 @@ impl Check for C10 {
             c.simcfg.max_hard_faults = 1;
             c.simcfg.fault_paths = vec!["/sim/out".into()];
             c.params = json!({"two_callers": true});
+            if r.chance(0.4) {
+                // the neighbour offers sections of the application configuration as per-run overrides (the unchanged
+                // tree reads parallelism and the two response policies from a run's configuration and nothing else):
+                // whatever a run's configuration says, it is that run's (round 7)
+                let lim = *r.pick(&[0u64, 1, 1 << 40]);
+                c.params["run_overrides"] = json!([{}, {"termination": {"type": "iterations", "limit": lim}, "algorithm": {"type": "dijkstra"}}]);
+            }
             return c;
         }
         gen(seed, family, tier)
